@@ -272,4 +272,10 @@ _ins("C18", "text", "Tied to the code by",
 _ins("C13", "text", "Tied to the code by",
      "SKIN FILES: the five data sections named by the recorded (count, offset) pairs follow the header without gap or overlap up to the "
      "end of the file, an empty section being recorded as offset 0 (skin_sections_tile, both layouts and the BfA header). ")
+_rep("C19", "technique", "kernel-decided lock-graph acyclicity)", "kernel-decided lock-graph acyclicity; invariant over ALL schedules of the close protocol, whose shape is re-extracted from the source; caller-buffer bounds)")
+_rep("C14", "technique", "reuse of the IFF framing lemmas)", "reuse of the IFF framing lemmas; tiling of the water chunk's regions by induction over entries and layers)")
+_rep("C13", "technique", "by induction over bones and sections)", "by induction over bones and sections; tiling of the skin sections)")
+_rep("C16", "technique", "bit-packing round trip via chunking lemmas)", "bit-packing round trip via chunking lemmas; header write->read over the generic record codec)")
+_rep("C01", "technique", "probing invariant)", "probing invariant; header V1-V4 write->read and read->write over the generic record codec)")
+_rep("C18", "technique", "chunk-framing induction)", "chunk-framing induction, payload records over the generic record codec)")
 
